@@ -4,15 +4,20 @@
 EXTENDS Integers, Sequences, TLC, Json
 Kinds == <<"led", "rgb", "servo", "motor", "button", "pot", "ultrasonic", "buzzer", "lcd", "lcdi2c">>
 Hoistable == {"led", "rgb", "servo", "motor", "button", "pot", "ultrasonic"}
-VARIABLES kind, place, use, nb, hasloop, other, done
+VARIABLES kind, place, use, nb, hasloop, other, rebind, decor, done
 Init == /\ kind \in 1..Len(Kinds) /\ place \in {"before", "looptop"} /\ use \in {"setup", "loop", "helper"}
         /\ nb \in 0..2 /\ hasloop \in BOOLEAN /\ other \in 0..Len(Kinds) /\ done = FALSE
+        /\ rebind \in BOOLEAN /\ decor \in BOOLEAN
+        \* rebind: the same name is also bound before the loop, to a device of the same kind on other pins
+        /\ (rebind => place = "looptop" /\ other = 0 /\ nb = 0)
+        \* decor: comment lines (column 0 and deeper), trailing comments on headers and blank lines are sprinkled over the script
+        /\ (decor => other = 0 /\ ~rebind /\ nb <= 1)
         /\ (place = "looptop" => Kinds[kind] \in Hoistable /\ use # "setup" /\ hasloop)
         /\ (~hasloop => use = "setup" /\ nb = 0)
         /\ (Kinds[kind] = "button" => use # "setup")
         /\ (other # 0 => other # kind /\ nb = 0 /\ Kinds[other] # "button")
         /\ (Kinds[kind] \in {"lcd", "lcdi2c"} => (other = 0 \/ Kinds[other] \notin {"lcd", "lcdi2c"}))
-Next == done = FALSE /\ done' = TRUE /\ UNCHANGED <<kind, place, use, nb, hasloop, other>>
+Next == done = FALSE /\ done' = TRUE /\ UNCHANGED <<kind, place, use, nb, hasloop, other, rebind, decor>>
 Emit == done => PrintT(ToJson([kind |-> Kinds[kind], place |-> place, use |-> use, nb |-> nb, hasloop |-> hasloop,
-                               other |-> (IF other = 0 THEN "none" ELSE Kinds[other])]))
+                               other |-> (IF other = 0 THEN "none" ELSE Kinds[other]), rebind |-> rebind, decor |-> decor]))
 =============================================================================
